@@ -77,8 +77,8 @@ func init() {
 			Harness{Fn: "ZZC04Assign", Quick: p("D", 1), Thorough: p("D", 2), Expect: []string{"accepted", "rejected", "witness:end"}},
 			Harness{Fn: "ZZC04Infer", Expect: []string{"infer-ok", "witness:end"}},
 			Harness{Fn: "ZZC04Params", Quick: p("D", 1), Thorough: p("D", 2), Expect: []string{"params-accepted", "params-rejected", "witness:end"}},
-			Harness{Fn: "ZZC04Range", Quick: p("RN", 2), Thorough: p("RN", 3), Expect: []string{"range-accepted", "range-rejected", "witness:end"}},
-			Harness{Fn: "ZZC04InferGen", Quick: p("K", 2), Thorough: p("K", 3), ThoroughBudget: 25 * time.Minute, Expect: []string{"infergen-ok", "infergen-oracle", "infergen-assign", "witness:end"}},
+			Harness{Fn: "ZZC04Range", Quick: p("RN", 2), Thorough: p("RN", 3), ThoroughBudget: 45 * time.Minute, Expect: []string{"range-accepted", "range-rejected", "witness:end"}},
+			Harness{Fn: "ZZC04InferGen", Quick: p("K", 2), Thorough: p("K", 3), ThoroughBudget: 50 * time.Minute, Expect: []string{"infergen-ok", "infergen-oracle", "infergen-assign", "witness:end"}},
 			Harness{Fn: "ZZC04Ops", Expect: []string{"ops-accepted", "witness:end"}},
 		)},
 		Assumptions: []string{
